@@ -380,6 +380,10 @@ def replaceSubregisterInSub (tbl : RegTable) (s : Term Sub) : Option (Term Sub) 
     some (⟨b.tid, ← replaceSubregisterInBlock tbl b.term⟩ : Term Blk)) s.term.blocks
   some ⟨s.tid, { s.term with blocks := blocks }⟩
 
+/-- all blocks of a function lifted one by one (term identifiers are kept) -/
+def liftBlocks (tbl : RegTable) (ptr : Nat) (blocks : List (Term Pcode.Blk)) : Option (List (Term Blk)) :=
+  mapOpt (fun b : Term Pcode.Blk => do some (⟨b.tid, ← liftBlk tbl ptr b.term⟩ : Term Blk)) blocks
+
 /-- `parse_pcode_project_to_ir_project`: `normalize()`, `into_ir_project(..)` (the program part) -/
 def liftProject (p : Pcode.Project) : Option Program := do
   let ptr := p.pointerSize
